@@ -251,7 +251,7 @@ impl Write for BaseStream {
     }
 }
 
-fn read_timeout(stream: &mut impl Read, buf: &mut [u8], timeout: &Option<mpsc::Sender<()>>) -> io::Result<usize> {
+fn read_timeout(stream: &mut impl Read, buf: &mut [u8], timeout: &mut Option<mpsc::Sender<()>>) -> io::Result<usize> {
     #[cfg(feature = "verif-hooks")]
     if timeout.is_some() {
         crate::verif_hooks::sched_point("rd:before-read");
@@ -265,7 +265,7 @@ fn read_timeout(stream: &mut impl Read, buf: &mut [u8], timeout: &Option<mpsc::S
             }
 
             #[cfg(unix)]
-            if let Some(timeout) = timeout {
+            if let Some(timeout) = timeout.as_ref() {
                 // On Unix we get a 0 read when the connection is shutdown by the timeout thread.
                 if !buf.is_empty() && timeout.send(()).is_err() {
                     return Err(io::ErrorKind::TimedOut.into());
@@ -275,6 +275,13 @@ fn read_timeout(stream: &mut impl Read, buf: &mut [u8], timeout: &Option<mpsc::S
             #[cfg(feature = "verif-hooks")]
             if timeout.is_some() && !buf.is_empty() {
                 crate::verif_hooks::sched_point("rd:pinged");
+            }
+
+            #[cfg(unix)]
+            if !buf.is_empty() {
+                // The timeout thread acknowledged a genuine end of stream and exits. Later reads
+                // see the end of stream again and must not mistake the thread's absence for a timeout.
+                *timeout = None;
             }
 
             Ok(0)
